@@ -147,7 +147,7 @@ def opLogExp (isLog : Bool) (ws : List String) : String :=
   "ok " ++ hexOrDash res ++ " ref=" ++ hexOrDash ref
 
 /-! ## vector routines -/
-def stat (b : Bool) : String := if b then "ok ok" else "ok fail"
+def stat (b : Bool) : String := if b then "ok ok nomsg" else "ok fail msg"
 
 def opVecD (op : String) (x y : List Float) (s : Float) (m : Nat) : String :=
   let sc (o : Option Float) : String := match o with | some r => "ok " ++ dbits r | none => "fault"
